@@ -29,7 +29,6 @@ EXCLUDED_ARG_CLASSES = [
     "dict form (to_dict_list/from_dict) of typed trees",
     "RANDOM_ORDER/UNORDERED iteration of a branch, visit() with methods other than "
     "pre/post/level, skip signals in post-order, visit callbacks returning True",
-    "falsy data / data_id in set_data",
     "unhashable data without explicit data_id",
     "deep copy of a branch into its own sub-branch",
     "add(<empty tree>) and add(<tree> to itself)",
